@@ -290,6 +290,36 @@ Proof.
   specialize (HL v' Hin). fold dm. rewrite !(dot_comm dm) in HL. lra.
 Qed.
 
+(** ** complete adjacencies (tetrahedra, neighbourly polytopes): no hypothesis on the mesh is left *)
+(** the adjacency is complete: every vertex lists every other vertex (tetrahedra, and more generally
+    neighbourly polytopes) *)
+Definition conn_complete (vs : list V3R) (conn : list (nat * list nat)) : Prop :=
+  forall i nb, lookup i conn = Some nb -> forall j, (j < length vs)%nat -> j <> i -> In j nb.
+
+Theorem LocalMaxGlobal_complete (d : V3R) vs conn :
+  conn_complete vs conn -> LocalMaxGlobal d vs conn (@EPSILON10 R ROps).
+Proof.
+  intros Hc i vi (vi' & nb & Evi & Enb & Hall) Hvi v Hin.
+  assert (vi' = vi) by congruence. subst vi'.
+  destruct (In_nth_error _ _ Hin) as [j Ej].
+  assert (Hj : (j < length vs)%nat) by (apply nth_error_Some; congruence).
+  pose proof EPSILON10_R_pos as He.
+  destruct (Nat.eq_dec j i) as [->|Hne].
+  - assert (v = vi) by congruence. subst. lra.
+  - specialize (Hall j v (Hc i nb Enb j Hj Hne) Ej). rewrite dot_sub_r in Hall. lra.
+Qed.
+
+(** full correctness (no hypothesis on the mesh left) for complete adjacencies: the answer is a point
+    of the hull and maximal up to 10*eps *)
+Theorem mesh_support_complete : forall fuel (T : Pose R) vs conn shortcuts first_idx (d : V3R) idx p,
+  conn_complete vs conn ->
+  mesh_query fuel T vs conn shortcuts first_idx d = Some (idx, p) ->
+  hull_set T vs p /\ forall x, hull_set T vs x -> dot x d <= dot p d + @EPSILON10 R ROps.
+Proof.
+  intros fuel T vs conn shortcuts first_idx d idx p Hc H.
+  eapply mesh_support_partial; eauto. apply LocalMaxGlobal_complete; auto.
+Qed.
+
 (** ** termination with a closed adjacency *)
 Lemma filter_length_lt {A : Type} (f g : A -> bool) : forall (l : list A) (y : A),
   (forall x, In x l -> f x = true -> g x = true) ->
